@@ -76,6 +76,16 @@ CLAIMED = {
    ref="5/C02", note=TB + "LSQR / lstsq judged (2^-23), not modelled; the generalised-inverse covariance evaluator (cov_ok_g) is executable specification, "
         "its soundness lemma is not proved (the normal-equation evaluator's is); translator vlib/translators/fromi.py.",
    technique="Coq proof over translator-regenerated scatter lists + WLS theorems; exact dyadic residual tests via vm_compute"),
+ "C07": dict(
+   text="Proof over Q for any rows and any set of fixed parameters: moving the fixed columns to the observations leaves every residual unchanged for all "
+        "values of the free parameters (T27); the inflated weight 1/(1/w + sum c^2 var) is strictly positive and <= w for any non-negative supplied variance "
+        "(T28); the pre-repair linear inflation is refuted (finding F3, repaired); the weight certificate and the residual test are statements over Q. Each "
+        "run captures the arguments of wls_sparse at run time and compares y and w with the reduced rows of the model (w certified as the inverse of the own "
+        "variance plus sum c^2 var_fixed; for single-ended, also the faithful x-major model because of F1), judges the free parameters by exact residual "
+        "tests on the reduced problem and checks that fixed parameters are reported as supplied with zero covariances - for fix_gamma, fix_dalpha, "
+        "fix_alpha, fix_alpha+fix_gamma and variances 0, tiny, comparable, 100x.",
+   ref="5/C07", note=TB + "run-time wrapper around calibrate_utils.wls_sparse inside the harness process; no matching sections in the C07 conformance; "
+        "single-ended cases inherit the known finding F1.", technique="Coq proof of the reduction + exact dyadic residual tests on captured solver input"),
 }
 NA = {}
 ALL = [f"C{i:02d}" for i in range(1, 21)]
